@@ -2,7 +2,7 @@
 # Applies every filed seeded change to a scratch worktree of /repo HEAD and runs the property's quick check.
 # Expected: exit 1 (caught) for every seed. Usage: seed_regress.sh [pattern]
 PAT=${1:-}
-WT=/tmp/seed-regress
+WT=/tmp/seed-regress-$$
 git -C /repo worktree remove --force $WT 2>/dev/null
 git -C /repo worktree add --detach $WT HEAD -q || exit 2
 cd /verif
